@@ -72,7 +72,7 @@ fn rule_for(prop: &str) -> &'static str {
     match prop {
         "C04" | "C05" | "C13" => "c13-task-seq: one task (spawn or spawn_and_forget) with a scripted future (0-7 poll steps: stash/drop/wake wakers, Ready, panic) and 0-30 handle operations (run, drop Runnable, wake by ref/by value, clone/drop waker, cancel, drop token, poll/drop Promise) against an exact model of the phase table (scheduling calls, polls, future/output drops, Promise::poll result, moment of the memory release); non-trivial = >=2 handle operations while a Runnable existed, or a wake-up during a poll. c13-task-conc: the same operations on 1 executor thread + 1-2 handle threads; non-trivial = external wake-ups were issued AND the task ran >=2 times; distinct = hash of the JSON case",
         "C12" => "c12-chan-poll: send/recv futures of the real channel.rs (1-3 senders, capacity 1-8) polled by the harness in a generated order (start send, poll woken or not, receive, cancel a pending send, drop a sender, drop the receiver, settle) with flag wakers; at every quiescence point (only woken futures are polled, until none is woken) no sender may be left waiting with room in the mailbox and no receiver with a message queued or the channel closed; completed sends are delivered exactly once in per-sender order; non-trivial = a sender and the receiver were both suspended. c12-queue-conc: 1-3 producers x 1-6 messages, one consumer, optional close by a producer / by the consumer, on the real queue.rs; per-producer FIFO, exactly once, nothing accepted is lost, Closed is final, len()==0 at quiescence; non-trivial = >=2 producers and a producer met a full queue. c12-chan-threads: sender and receiver futures polled on different threads, what is left in flight is settled and judged by the same quiescence oracle; non-trivial = a sender and the receiver were both suspended; distinct = hash of the JSON case",
-        "C14" => "c14-rwlock: 2-3 clones of CachedRwLock<Vec<u32>> on threads, generated write (append) / refresh sequences; a refresh that starts after k appends completed sees >= k entries, lists never shrink, per-writer order; non-trivial = >=2 writers and an append completed during a refresh. c14-taskset: owner loop of BroadcastFuture (register unless scheduled, take_scheduled(1) until None) against 1-2 threads waking generated sub-task indices; every wake-up is followed by the processing of that index or by a notification of the parked owner; no index twice per take; non-trivial = the owner was notified after it had parked; distinct = hash of the JSON case",
+        "C14" => "c14-rwlock: 2-3 clones of CachedRwLock<Vec<u32>> on threads, generated write (append) / refresh sequences; a refresh that starts after k appends completed sees >= k entries, lists never shrink, per-writer order; non-trivial = >=2 writers and an append completed during a refresh. c14-taskset-seq: generated resize (shrink, regrow) / wake / take sequences on one thread: take_scheduled yields exactly the active indices woken since the last take, each once; non-trivial = the set was shrunk and later grown beyond its previous maximum. c14-taskset: owner loop of BroadcastFuture (register unless scheduled, take_scheduled(1) until None) against 1-2 threads waking generated sub-task indices; every wake-up is followed by the processing of that index or by a notification of the parked owner; no index twice per take; non-trivial = the owner was notified after it had parked; distinct = hash of the JSON case",
         "C15" => "c15-cell: the real SyncCell with a two-word tearable value (k, g(k)): one writer (1-7 writes), 1-2 readers (try_read/read); every value read is untorn and was written, per-reader non-decreasing, a read after an acquire-load of 'k0 written' returns >= k0, a fresh read after the last write returns it; non-trivial = a reader saw >=2 distinct values and a try_read failed because it overlapped a write; distinct = hash of the JSON case",
         _ => "see DESIGN.md",
     }
@@ -141,6 +141,8 @@ fn run_property(prop: &'static str, tier: &str, seed: u64) -> i32 {
                 let n = ctx.n(1_000, 20_000);
                 ctx.run(&units14::RwSub { iters: 10 }, n, w(4));
                 ctx.run(&units14::TsSub { iters: 10 }, n, w(4));
+                let n = ctx.n(100_000, 2_000_000);
+                ctx.run(&units14::TsSeqSub, n, w(16));
             } else {
                 let n = ctx.n(1_600, 32_000);
                 ctx.run(&units14::RwSub { iters: 200 }, n, w(16));
@@ -192,6 +194,7 @@ fn replay(path: &str) -> i32 {
         "c15-cell-threads" => replay_one(&scell::CellSub { iters: 200 }, p, case, path),
         "c14-rwlock-shuttle" => replay_one(&units14::RwSub { iters: 2000 }, p, case, path),
         "c14-rwlock-threads" => replay_one(&units14::RwSub { iters: 200 }, p, case, path),
+        "c14-taskset-seq" => replay_one(&units14::TsSeqSub, p, case, path),
         "c14-taskset-shuttle" => replay_one(&units14::TsSub { iters: 2000 }, p, case, path),
         "c14-taskset-threads" => replay_one(&units14::TsSub { iters: 200 }, p, case, path),
         _ => {
@@ -243,6 +246,7 @@ fn gen_batch(prop: &str, n: usize, seed: u64) -> i32 {
         "C14" => {
             sample(&units14::RwSub { iters: 1 }, prop, n, seed, &mut out);
             sample(&units14::TsSub { iters: 1 }, prop, n, seed, &mut out);
+            sample(&units14::TsSeqSub, prop, n, seed, &mut out);
         }
         "C15" => sample(&scell::CellSub { iters: 1 }, prop, n, seed, &mut out),
         _ => return 2,
@@ -267,6 +271,7 @@ fn eval_once(sub: &str, case: &serde_json::Value) -> Option<Verdict> {
         "c15-cell-threads" => go(&scell::CellSub { iters: 1 }, case),
         "c14-rwlock-threads" => go(&units14::RwSub { iters: 1 }, case),
         "c14-taskset-threads" => go(&units14::TsSub { iters: 1 }, case),
+        "c14-taskset-seq" => go(&units14::TsSeqSub, case),
         _ => None,
     }
 }
